@@ -647,7 +647,10 @@ func mergeScrapeStatus(a, b map[uint64]*target.ScrapeStatus) map[uint64]*target.
 	for k, v := range b {
 		old := a[k]
 		if old == nil {
-			a[k] = v
+			// keep a private copy: the entries of b belong to a replica's shards or to the explorer,
+			// the merged view must not write through to them when a later replica is merged in
+			cp := *v
+			a[k] = &cp
 			continue
 		}
 
